@@ -87,6 +87,10 @@ func frontRelPath(q frontReq) string {
 
 // a valid XML body for the method
 func frontValidXML(q frontReq, r *RNG) string {
+	return randStyle(r).doc(frontValidRoot(q, r))
+}
+
+func frontValidRoot(q frontReq, r *RNG) *wEl {
 	nsX, coll := nsCal, "calendar"
 	if q.srv == "card" {
 		nsX, coll = nsCard, "addressbook"
@@ -130,7 +134,7 @@ func frontValidXML(q frontReq, r *RNG) string {
 	default:
 		root = E("DAV:", "propfind", E("DAV:", "allprop"))
 	}
-	return randStyle(r).doc(root)
+	return root
 }
 
 func frontBody(q frontReq, r *RNG) string {
@@ -177,6 +181,19 @@ func frontBody(q frontReq, r *RNG) string {
 		}
 		return string(b)
 	case "wrongroot":
+		if r.Chance(40) {
+			// the right document for this method under the right local name, in ANOTHER namespace: a root element is
+			// named by its expanded name
+			root := frontValidRoot(q, r)
+			other := []string{"urn:x", nsCard, nsCal, "DAV:", ""}
+			for {
+				if ns := r.Pick(other); ns != root.ns {
+					root.ns = ns
+					break
+				}
+			}
+			return randStyle(r).doc(root)
+		}
 		return randStyle(r).doc(E(r.Pick([]string{"DAV:", "urn:x", nsCal}), r.Pick([]string{"nonsense", "multistatus", "propfind2"}), E("DAV:", "allprop")))
 	case "noform":
 		switch q.method {
@@ -335,6 +352,7 @@ func runFront(q frontReq, body string) string {
 		mutated := false
 		nilObject := false // the backend was handed a nil calendar / card
 		altered := false   // a backend call carried a path that is neither the request path nor one of the backend's own
+		objReads := 0      // object-level read calls (Get…Object)
 		switch q.srv {
 		case "cal":
 			px := q.prefix
@@ -347,6 +365,9 @@ func runFront(q frontReq, body string) string {
 				mutated = mutated || isMutating(c)
 				altered = altered || callPathAltered(c, known)
 				nilObject = nilObject || c == "NilObject"
+				if strings.HasPrefix(c, "GetCalendarObject ") {
+					objReads++
+				}
 			}
 		case "card":
 			px := q.prefix
@@ -359,6 +380,9 @@ func runFront(q frontReq, body string) string {
 				mutated = mutated || isMutating(c)
 				altered = altered || callPathAltered(c, known)
 				nilObject = nilObject || c == "NilObject"
+				if strings.HasPrefix(c, "GetAddressObject ") {
+					objReads++
+				}
 			}
 		case "prin":
 			webdav.ServePrincipal(rec, req, &webdav.ServePrincipalOptions{CurrentUserPrincipalPath: "/u/",
@@ -376,6 +400,28 @@ func runFront(q frontReq, body string) string {
 		}
 		if altered {
 			return fmt.Sprintf("%d %s altered-path", res.StatusCode, b01(mutated))
+		}
+		// OPTIONS follows the level like every other method: only at object depth is the object looked up (and the answer
+		// says what can be done with an object that exists / does not exist yet); every other depth - deeper ones
+		// included - gets the collection-side answer and no object is asked for
+		if q.method == "OPTIONS" && q.srv != "prin" && res.StatusCode/100 == 2 {
+			var allow []string
+			for _, v := range res.Header.Values("Allow") {
+				for _, m := range strings.Split(v, ",") {
+					allow = append(allow, strings.TrimSpace(m))
+				}
+			}
+			sort.Strings(allow)
+			want, wantReads := "DELETE,MKCOL,OPTIONS,PROPFIND,REPORT", 0
+			if q.level == 4 {
+				want, wantReads = "OPTIONS,PUT", 1
+				if q.exists {
+					want = "DELETE,GET,HEAD,OPTIONS,PROPFIND,PUT"
+				}
+			}
+			if strings.Join(allow, ",") != want || objReads != wantReads {
+				return fmt.Sprintf("%d %s options-not-by-level", res.StatusCode, b01(mutated))
+			}
 		}
 		if slashDependent(q, body) {
 			return fmt.Sprintf("%d %s slash-dependent", res.StatusCode, b01(mutated))
